@@ -347,7 +347,7 @@ fn skipnan_3d(perm: u8, what: u8) {
 fn c14_skipnan_3d_cyclic_arg() {
     skipnan_3d(1, 0);
 }
-//@ prop=C14,C20:thorough tier=quick mem=6 timeout=3000 inst="indexed_fold_skipnan on ArrayView3<Option<i8>> 2x2x2 seen through permuted_axes([1,2,0])" bounds="all None placements and payloads; unwind 12"
+//@ prop=C14,C20 tier=quick mem=6 timeout=3000 inst="indexed_fold_skipnan on ArrayView3<Option<i8>> 2x2x2 seen through permuted_axes([1,2,0])" bounds="all None placements and payloads; unwind 12"
 #[kani::proof]
 #[kani::unwind(12)]
 fn c14_skipnan_3d_cyclic_fold() {
